@@ -14,8 +14,10 @@ static std::map<std::string, EngineFn> &engines()
 }
 void registerEngine(const std::string &name, EngineFn f) { engines()[name] = f; }
 
+bool g_mute = false;     // a bystander object is being created and destroyed: its own output is not part of the trace
 void outLine(const std::string &s)
 {
+    if (g_mute) return;
     fputs(s.c_str(), stdout);
     fputc('\n', stdout);
 }
